@@ -22,6 +22,15 @@ OUTSIDE = {
     "C07-10": "only the *text* of the condition quotes a folded ASC/ASCQ; status handling, exception and .asc/.ascq are right: the text is C08's statement, and C08 catches it",
     "C02-14": "the iSCSI transport pads the command's own CDB to 16 bytes while sending it: the encode/decode functions C02 speaks of are untouched; the CDB that reaches the binding (and the one the returned command holds) is C01's and C13's observation point, and both catch it",
     "C04-14": "stale keys after re-executing one command *object* (SCSICommand.unmarshall merges results): the parsers C04 speaks of are untouched; 'the result is the decode of what the device left' on the instance path is C13's statement, and C13 catches it",
+    "C01-15": "native-endian struct.pack in ATA PASS-THROUGH(12): byte-identical to the hand-written shifts on every little-endian host, wrong only on a big-endian one; no execution this sandbox can produce distinguishes the two (runtime monitoring observes executions on this host only)",
+    "C02-15": "the ATAPassThrough16 *constructor* folds LBA(27:24) into DEVICE before the encoder is reached: C02's oracle 'decode returns what build_cdb was given' still holds; arguments -> CDB is C01's statement, and C01 catches it (28-bit commands with 48-bit values, DEVICE bit 6)",
+    "C02-16": "SCSI.write10/12/16 replace the caller's TRANSFER LENGTH when the data buffer is larger: the command classes and their encode/decode functions are untouched; 'all documented arguments reach the CDB' through the facade is C13's statement, and C13 catches it (write buffers larger than the blocks asked for)",
+    "C02-17": "the SG_IO transport sets CK_COND in the command's own CDB while sending it: the encode/decode functions C02 speaks of are untouched; the CDB that reaches the binding and the one the returned command holds are C01's and C13's observation point, and C01 catches it",
+    "C10-17": "needs a dict subclass whose __getitem__ answers something else than its items(): such an object breaks the Mapping contract the codec's own type annotation names, so no law of C10 says which of the two answers is 'the value'; real dicts, UserDict, OrderedDict and ChainMap are generated and agree",
+    "C12-15": "a second build_cdb on the same command object XORs into the old CDB: nothing in the transports or the target interaction C12 speaks of changes, the wrong bytes come from CDB construction; 'building again from the same fields gives the same CDB' is monitored by C02 (and C01 after an in-place rebuild), and both catch it",
+    "C12-17": "SCSIDevice.__exit__ / SCSI.__exit__ return True and swallow the exception leaving a with block: every command that is issued still round-trips; 'a device error surfaces to the caller' is C07's statement, and C07 catches it",
+    "C14-16": "the iSCSI transport masks the status byte with 3Eh so that TASK ABORTED (40h) is treated as GOOD: every value the library *exposes* under a name is still T10's (C14's statement); acting on a completion status is C07's statement, and C07 catches it",
+    "C16-16": "SCSIDevice records the new inode before the re-open after a replug has succeeded: command-set selection is untouched; handles and replug detection under failing re-opens are C15's statement, and C15 catches it",
     "C09-11": "copy.deepcopy(command) shares the decoded result: no other command is created or used, the CDBs and buffers C09 speaks of stay independent; the returned command and its result are C13's observation point, and C13 catches it",
 }
 
